@@ -230,6 +230,13 @@ func deref(cur any) (any, string, bool) {
 				cur = d
 				break
 			}
+			if d, isPtr, isNil := derefOrt(cur); isPtr {
+				if isNil {
+					return nil, rNilPointer, thru
+				}
+				cur = d
+				break
+			}
 			if d, isPtr, isNil := derefTypedMap(cur); isPtr {
 				if isNil {
 					return nil, rNilPointer, thru
@@ -280,6 +287,9 @@ func index(cur any, st Step) (any, string, string) {
 		return v, o, kind
 	}
 	if v, o, kind, isPage := indexPage(cur, st.K, pfx); isPage {
+		return v, o, kind
+	}
+	if v, o, kind, isO := indexOrt(cur, st.K, pfx); isO {
 		return v, o, kind
 	}
 	if v, o, kind, isTM := indexTypedMap(cur, st.K, pfx); isTM {
@@ -634,6 +644,9 @@ func validSteps(cur any) []string {
 	if keys, ok := typedMapKeys(cur); ok {
 		return keys
 	}
+	if isOrt(cur) {
+		return ortNames
+	}
 	if keys, _, _, ok := intMapInfo(cur); ok {
 		return intMapValid(keys)
 	}
@@ -759,6 +772,9 @@ func invalidSteps(cur any, avoid func(id string) bool) []string {
 	if _, ok := typedMapKeys(cur); ok {
 		return []string{"zz", "nope", "7", "rust"}
 	}
+	if isOrt(cur) {
+		return []string{"übersicht", "STRASSE", "Strasse", "grösse", "Ubersicht", "0"}
+	}
 	if isMapSS(cur) && avoid != nil && avoid(kfMapSS) {
 		return nil // missing key of a map[string]string: region of the open finding
 	}
@@ -786,7 +802,7 @@ func invalidSteps(cur any, avoid func(id string) bool) []string {
 	}
 	switch d.(type) {
 	case map[string]any, map[string]string, map[string]int:
-		return []string{"zz", "nope", "7"}
+		return []string{"zz", "nope", "7", "köln", "Koln", "日本", "e"}
 	case map[int]string:
 		return []string{"7", "x", "-1"}
 	case Node:
